@@ -113,11 +113,17 @@ def call(fn, *a, **k):
 
 
 class SimFile(io.StringIO):
-    def __init__(self, disk, name, mode, initial=""):
+    def __init__(self, disk, name, mode, initial="", encoding=None, errors=None):
         super().__init__(initial if "r" in mode else "")
         self._disk, self._name, self._mode = disk, name, mode
         self._done = False
+        # a text file encodes what is written to it: like the real thing, refuse what the encoding cannot express
+        self._encoding, self._errors = encoding or "utf-8", errors or "strict"
         disk.open_handles += 1
+
+    def write(self, text):
+        text.encode(self._encoding, self._errors)
+        return super().write(text)
 
     def _flush_to_disk(self):
         if not self._done:
@@ -180,10 +186,10 @@ class SimPath:
     def __init__(self, name):
         self.name = str(name)
 
-    def open(self, mode="r", *a, **k):
+    def open(self, mode="r", buffering=-1, encoding=None, errors=None, newline=None):
         if "r" in mode:
-            return SimFile(SimPath.disk, self.name, mode, SimPath.disk.read(self.name))
-        return SimFile(SimPath.disk, self.name, mode)
+            return SimFile(SimPath.disk, self.name, mode, SimPath.disk.read(self.name), encoding, errors)
+        return SimFile(SimPath.disk, self.name, mode, "", encoding, errors)
 
 
 # --------------------------------------------------------------------------- data boxes (surface S8)
